@@ -117,3 +117,40 @@ func atomDerivedFrom(c *Check, op string, key engine.FieldKey) func(a engine.Ato
 		return back.Has(key)
 	}
 }
+
+// gateHelperSite: a call in the gate to a function of the same package that the decision was moved into.
+type gateHelperSite struct {
+	Call   *ssa.Call
+	Helper *ssa.Function
+}
+
+// gateHelpersCalling: the static calls of the gate to same-package helpers that directly call target.
+func gateHelpersCalling(c *Check, gate *ssa.Function, target *ssa.Function) []gateHelperSite {
+	var out []gateHelperSite
+	for _, s := range engine.SitesIn(gate) {
+		call, ok := s.(*ssa.Call)
+		if !ok {
+			continue
+		}
+		h := call.Call.StaticCallee()
+		if h == nil || len(h.Blocks) == 0 || h.Pkg != engine.TopFunc(gate).Pkg || h == target {
+			continue
+		}
+		if len(callsToFn(c, h, target)) > 0 {
+			out = append(out, gateHelperSite{call, h})
+		}
+	}
+	return out
+}
+
+// mayBeTrueReturn: a return of a bool function whose value is not the constant false.
+func mayBeTrueReturn(in ssa.Instruction) bool {
+	r, ok := in.(*ssa.Return)
+	if !ok || len(r.Results) != 1 {
+		return false
+	}
+	if k, isK := engine.BoolConst(r.Results[0]); isK {
+		return k
+	}
+	return true
+}
